@@ -186,6 +186,30 @@ theorem c05_unregist_close_make_not_ok (st : State) (i : Nat) :
     isOk (unregist st i) i = false ∧ isOk (closeStream st i false) i = false :=
   ⟨isOk_unregist_self st i, isOk_closeStream_self st i false⟩
 
+/-- **Every lookup entry point gives the same answer, in every reachable state** — in particular in the
+    state "closed but still registered" (closed by its owner, the API's stop or the idle task before the
+    publisher has unregistered it).  `get` is the lookup of `Get`, of the info API and — by the source fact
+    `getOrCreateCalls` (its first call is `Get(path)`; an obligation of `c05_source_facts`) — of
+    `GetOrCreate`, the lookup of every consumer path; `listed` is what `Count` and `Infos` enumerate.
+    A path resolves to stream i exactly when (canonical path, i) is listed, and then i is StreamOK: no lookup
+    returns a stream the listings do not show, and none returns a closed one. -/
+theorem c05_lookups_agree (cfg : Cfg) (ops : List Op) (p : Path) (i : Nat) :
+    let st := run cfg genFacts State.empty ops
+    (get cfg genFacts st p = some i ↔ (canonicalPath cfg p, i) ∈ listed genFacts st) ∧
+    (get cfg genFacts st p = some i → isOk st i = true) := by
+  intro st
+  have hn : (st.reg.map Prod.fst).Nodup := (c05_one_stream_per_path cfg genFacts ops).1
+  refine ⟨⟨fun h => ?_, fun h => ?_⟩, fun h => get_some_ok (by decide) h⟩
+  · unfold listed
+    exact List.mem_filter.mpr ⟨mem_of_load (get_some_registered h), by simpa using get_some_visible h⟩
+  · unfold listed at h
+    obtain ⟨hm, hv⟩ := List.mem_filter.mp h
+    have hl := (load_iff_mem hn _ _).mpr hm
+    unfold Registry.get
+    rw [hl]
+    simp only [] at hv
+    simp [hv]
+
 /-- **Registering retires the old stream: at once if it has no consumers**, else by a pending
     replaced-task (one more unfinished task watches it). -/
 theorem c05_regist_retires_old (cfg : Cfg) (f : Facts) (ops : List Op) (i o : Nat) (s : Stream) :
